@@ -107,7 +107,7 @@ impl Check for C08 {
     }
     fn cases(&self, tier: Tier) -> u32 {
         match tier {
-            Tier::Quick => 8_000,
+            Tier::Quick => 10_000,
             Tier::Thorough => 400_000,
         }
     }
@@ -334,11 +334,7 @@ async fn run_case(c: &Case) -> Outcome {
                     let (first, last) = (flog.first_entry_id(), flog.last_entry_id());
                     let consecutive = after.windows(2).all(|w| w[1].index == w[0].index + 1);
                     let bounds_ok = if after.is_empty() { first == 0 && last == 0 } else { first == after[0].index && last == after.last().unwrap().index };
-                    let before_consecutive = before.windows(2).all(|w| w[1].index == w[0].index + 1);
-                    if !before_consecutive {
-                        // the hole was created by an earlier (gapped) request of this case, not by this one
-                        labels.push("follower_log_already_gapped_before_request");
-                    } else if !consecutive || !bounds_ok {
+                    if !consecutive || !bounds_ok {
                         let sig = if gapped { "C08:follower-accepts-gapped-request" } else { "C08:follower-log-gap" };
                         viol.push(sig, format!("round {rno} peer {pid}: follower answered success to prev=({},{}) entries={} and now holds {} (first={first} last={last}); before: {}", req.prev_log_index, req.prev_log_term, show(&req.entries), show(&after), show(&before)));
                     }
